@@ -41,12 +41,12 @@ TRUSTED = [
 ASSUMPTIONS = [
     "interface names: non-empty, no NUL, no '\\n'/'\\r', first and last byte not removed by the strip the code applies (theorems C09_net*: WFName netCfg.nameWs); the full-strength statement for every name free of C-locale whitespace is C09_net_every_kernel_name_Full (proved for `.strip(' ')`, refuted for the bare `.strip()`: finding C09-net-name-strip); with the bare strip() the UTF-8 encodings of Unicode spaces at the ends of a name are stripped by the code but not by the byte-level model (inside the finding's region only)",
     "disk names (/proc/diskstats source): one non-empty token for str.split(): no ASCII whitespace incl. 0x1c-0x1f, no NUL, no UTF-8 encoded Unicode space (WFDisk.noUni: hasUniSpace name = false, stated in the theorems; a line that has one is 'unmodelled'); not '.' or '..'; distinct after the / -> ! mapping",
-    "/sys/block source (C09_sysfs*): kernel-shaped tree - `stat` is the only file of that name in a device directory, attribute directories contain no file called `stat` (a deeper `stat` file IS read by the code and by the model: raw family 'deepstat'), directory names distinct and not '.'/'..'; names need not be split() tokens; a device whose kernel name contains '/' is reported under its sysfs name ('!' for '/'): C09_sysfs_agrees_with_procfs has the hypothesis, C09_sysfs_slash_name_counterexample shows it is needed",
+    "/sys/block source (C09_sysfs*): kernel-shaped tree - `stat` is the only file of that name in a device directory, attribute directories contain no file called `stat` (a deeper `stat` file IS read by the code and by the model: raw family 'deepstat'), directory names distinct and not '.'/'..'; names need not be split() tokens; kernel names contain no '!' (the kernel's '/' -> '!' is not injective otherwise); with the bare basename(root) a device whose kernel name contains '/' is reported under its directory name (finding C09-sysfs-slash-name, fixes/C09-sysfs-slash-name.diff): C09_sysfs_agrees_with_procfs_Full is proved for the repaired configuration and for the generated one under the obligation cfg.nameReplace = some ('!','/'), refuted for the bare one",
     "device names are unique within one /proc file for the round-trip/sum theorems (the model itself keeps dict-overwrite semantics and the correspondence exercises duplicates)",
     "nowrap=False (nowrap=True post-processing is property C10)",
 ]
 MANIFEST = {
-    "level_text": "Machine-checked Lean 4 proofs over a model of _pslinux.net_io_counters, _pslinux.disk_io_counters (read_procfs, read_sysfs, the choice between them, NotImplementedError, is_storage_device filter), the two psutil front ends (nowrap=False; the zip/sum of the system-wide branch is a translator fact) and _psposix.disk_usage: round-trip theorems parse(render(table)) = documented fields for EVERY interface table (names with ':' '/' digits, unbounded counters) and for every /proc/diskstats table mixing the 14-, 18-, 20- (any >=18), 7- and 15-field layouts (sectors x 512), ValueError for every other field count, total = field-wise sum over whole disks only / over all interfaces (deleting every partition line leaves the total unchanged), None/{} conventions, the same for every kernel-shaped /sys/block tree when /proc/diskstats is absent (stat files of 11, 15, 17 or more fields, partitions below disks, attribute files/directories around; fewer than 10 fields: ValueError) and agreement of the two sources for the same kernel state (names without '/'; counterexample for 'c/d' proved), NotImplementedError when neither exists, int() acceptance on ASCII tokens, disk_usage formulas, 0 <= percent <= 100, |round1 q - q| <= 1/20. The full-strength name statement (every interface name free of C-locale whitespace is reported unchanged) is proved for the translator-generated configuration (C09_net_names_full: the source uses `.strip(' ')`) and refuted with a witness for the bare `.strip()` (former finding C09-net-name-strip). The model's column maps, branch table, sector size, skip condition, namedtuple fields and disk_usage assignments are regenerated from the source on every run and are parameters of the model the theorems are about; the model is tied to the code by a differential run of the real front-end functions over a fake procfs whose files are produced by the Lean renderers.",
+    "level_text": "Machine-checked Lean 4 proofs over a model of _pslinux.net_io_counters, _pslinux.disk_io_counters (read_procfs, read_sysfs, the choice between them, NotImplementedError, is_storage_device filter), the two psutil front ends (nowrap=False; the zip/sum of the system-wide branch is a translator fact) and _psposix.disk_usage: round-trip theorems parse(render(table)) = documented fields for EVERY interface table (names with ':' '/' digits, unbounded counters) and for every /proc/diskstats table mixing the 14-, 18-, 20- (any >=18), 7- and 15-field layouts (sectors x 512), ValueError for every other field count, total = field-wise sum over whole disks only / over all interfaces (deleting every partition line leaves the total unchanged), None/{} conventions, the same for every kernel-shaped /sys/block tree when /proc/diskstats is absent (stat files of 11, 15, 17 or more fields, partitions below disks, attribute files/directories around; fewer than 10 fields: ValueError) and agreement of the two sources for the same kernel state (full strength for `.replace('!', '/')` in read_sysfs - translator fact sysfsNameReplace -, counterexample 'c/d' proved for the bare basename(root): finding C09-sysfs-slash-name), NotImplementedError when neither exists, int() acceptance on ASCII tokens, disk_usage formulas, 0 <= percent <= 100, |round1 q - q| <= 1/20. The full-strength name statement (every interface name free of C-locale whitespace is reported unchanged) is proved for the translator-generated configuration (C09_net_names_full: the source uses `.strip(' ')`) and refuted with a witness for the bare `.strip()` (former finding C09-net-name-strip). The model's column maps, branch table, sector size, skip condition, namedtuple fields and disk_usage assignments are regenerated from the source on every run and are parameters of the model the theorems are about; the model is tied to the code by a differential run of the real front-end functions over a fake procfs whose files are produced by the Lean renderers.",
     "level_note": "Trusted: Lean kernel + {propext, Classical.choice, Quot.sound}; the translator; the correspondence harness; kernel line renderers; int()/split()/strip()/round()/os.walk of CPython modelled; negative int() results, non-ASCII digit tokens and UTF-8 encoded Unicode spaces are outside the model's domain (the model says so, such inputs are counted and not judged).",
     "technique": "Lean 4 round-trip proofs (render → parse) per kernel layout with translator-fed column maps + sum laws by induction + differential correspondence over a fake procfs and a redirected /sys/block",
     "design_ref": "DESIGN.md §5 C09",
@@ -381,8 +381,18 @@ def _sysfs_facts(tree):
             and isinstance(w.items[0].optional_vars, ast.Name) and len(w.body) == 1
             and L.unparse(w.body[0]) == "fields = %s.read().strip().split()" % w.items[0].optional_vars.id):
         raise NotRecognised("read_sysfs: open/read statement")
-    if L.unparse(body[2]) != "name = os.path.basename(%s)" % rootv:
-        raise NotRecognised("read_sysfs: name = %s" % L.unparse(body[2]))
+    nm = body[2]
+    name_replace = "?"
+    if isinstance(nm, ast.Assign) and len(nm.targets) == 1 and L.dotted(nm.targets[0]) == "name":
+        v = nm.value
+        if L.unparse(v) == "os.path.basename(%s)" % rootv:
+            name_replace = None
+        elif (isinstance(v, ast.Call) and isinstance(v.func, ast.Attribute) and v.func.attr == "replace"
+              and L.unparse(v.func.value) == "os.path.basename(%s)" % rootv and len(v.args) == 2 and not v.keywords
+              and all(isinstance(L.const(a_), str) and len(L.const(a_)) == 1 and ord(L.const(a_)) < 128 for a_ in v.args)):
+            name_replace = (ord(L.const(v.args[0])), ord(L.const(v.args[1])))
+    if name_replace == "?":
+        raise NotRecognised("read_sysfs: %s" % L.unparse(nm))
     a = body[3]
     if not (isinstance(a, ast.Assign) and len(a.targets) == 1 and isinstance(a.targets[0], ast.Tuple) and _is_map_int(a.value)):
         raise NotRecognised("read_sysfs: unpack statement")
@@ -428,9 +438,9 @@ def _sysfs_facts(tree):
         nosrc = L.dotted(raises[-1].exc.func)
         break
     return {"root": root, "stat": stat, "take": take, "unpack": unpack, "yield": ynames[1:], "sources": sources,
-            "nosrc": nosrc,
+            "nosrc": nosrc, "name_replace": name_replace,
             "shape": [root, L.unparse(walk.iter), L.unparse(t.test), L.unparse(w.items[0].context_expr),
-                      L.unparse(w.body[0]), L.unparse(body[2])]}
+                      L.unparse(w.body[0])]}
 
 
 def _usage_facts(tree):
@@ -589,7 +599,10 @@ def facts(snap, F):
               "system-wide branch of the front ends [disk, net]: `return CTOR(*(R(x) for x in S))` as (R, S); the "
               "per-device branch is `for k, fields in rawdict.items(): rawdict[k] = CTOR(*fields)`")
     F.try_add("sysfsShape", "List String", lambda: _strs(sysfs()["shape"]),
-              "read_sysfs: directory listed, walk expression, membership test, open expression, read statement, name statement")
+              "read_sysfs: directory listed, walk expression, membership test, open expression, read statement")
+    F.try_add("sysfsNameReplace", "Option (Nat × Nat)",
+              lambda: L.lean_opt(sysfs()["name_replace"], lambda ab: L.lean_pair(L.lean_nat(ab[0]), L.lean_nat(ab[1]))),
+              "read_sysfs: `name = os.path.basename(root)` (none) or `name = os.path.basename(root).replace(chr a, chr b)` (some (a, b))")
     F.try_add("sysfsStatName", "List Nat", lambda: L.lean_bytes(os.fsencode(sysfs()["stat"])),
               "read_sysfs: the file read in every walked directory (file-system encoding of the literal)")
     F.try_add("sysfsTake", "Nat", lambda: L.lean_nat(sysfs()["take"]), "read_sysfs: `map(int, fields[:k])`")
@@ -1436,16 +1449,41 @@ def stripped_expectation(op, sp):
     return {"kind": "total", "fields": [[vals[0][j][0], sum(v[j][1] for v in vals)] for j in range(8)]}
 
 
+FINDING_SLASH = "C09-sysfs-slash-name"
+
+
+def in_slash_region(op):
+    """region of finding C09-sysfs-slash-name: the counters come from /sys/block (no /proc/diskstats) and some
+    device's kernel name contains '/'"""
+    if op.get("op") != "sysfs" or op.get("procfs"):
+        return False
+    return any(b"/" in bytes.fromhex(x["name"]) for d in op["disks"] for x in [d] + d["parts"])
+
+
+def banged_expectation(op, sp):
+    """the recorded defective behaviour of finding C09-sysfs-slash-name: the promised answer with every device
+    under its /sys/block directory name ('!' for '/'); the system-wide total is not affected"""
+    if not isinstance(sp, dict) or sp.get("kind") != "perdev":
+        return sp
+    return {"kind": "perdev", "devs": sorted([bytes.fromhex(k).replace(b"/", b"!").hex(), v] for k, v in sp["devs"])}
+
+
+# finding id -> (region predicate, the only deviation accepted inside the region while the finding is listed)
+FINDING_RULES = {FINDING_STRIP: (in_strip_region, stripped_expectation),
+                 FINDING_SLASH: (in_slash_region, banged_expectation)}
+
+
 def check_finding(ctx, fnd):
-    if fnd.get("id") != FINDING_STRIP:
+    rule = FINDING_RULES.get(fnd.get("id"))
+    if rule is None:
         return "unknown"
     impl = Impl(ctx)
     try:
-        op = fnd["witness"]["input"]
+        op = dict(fnd["witness"]["input"])
         (im, mo, sp, _), = run_ops(ctx, impl, [op])[0]
         if im == sp:
             return "gone"
-        return "reproduces" if im == stripped_expectation(op, sp) else "changed"
+        return "reproduces" if im == rule[1](op, sp) else "changed"
     finally:
         impl.close()
 
@@ -1616,14 +1654,18 @@ def correspond(ctx, res):
                      sample={"input": o, "impl": im} if src == "random" and len(res.samples) < 5 and nontrivial else None)
             verdict = judge(o, im, mo, sp)
             fid = None
-            if verdict is not None and in_strip_region(o) and any(f.get("id") == FINDING_STRIP for f in ctx.findings):
-                # inside the region of a listed finding the only accepted deviation is the recorded one:
-                # the same table with every name str.strip()ped (later duplicates overwrite) - anything else is new
-                if im == stripped_expectation(o, sp):
-                    fid = FINDING_STRIP
-                    res.known_seen[fid] = res.known_seen.get(fid, 0) + 1
+            for cand, (region, expectation) in FINDING_RULES.items():
+                if verdict is not None and region(o) and any(f.get("id") == cand for f in ctx.findings):
+                    # inside the region of a listed finding the only accepted deviation is the recorded one
+                    # (net: every name str.strip()ped, later duplicates overwrite; sysfs: '!' for '/') - anything
+                    # else is new
+                    if im == expectation(o, sp):
+                        fid = cand
+                        res.known_seen[fid] = res.known_seen.get(fid, 0) + 1
             if in_strip_region(o):
                 res.count("net:name-with-strip()-able-end")
+            if in_slash_region(o):
+                res.count("sysfs:slash-name read through /sys/block (region of C09-sysfs-slash-name)")
             if verdict == "spec":
                 res.disagree("spec", o, im, mo, sp, note="implementation differs from the specification "
                              "(kernel-rendered input → documented fields)", finding=fid)
